@@ -8,3 +8,4 @@ import GoFlags.Props.C06
 #print axioms GoFlags.C06.only_active_chain_is_demanded
 #print axioms GoFlags.C06.supplied_is_not_missing
 #print axioms GoFlags.C06.nothing_executed
+#print axioms GoFlags.C06.successful_parse_has_every_required_item
